@@ -114,6 +114,8 @@ def det_ops(rng):
     if r < 0.72:
         if n == 0:
             return "cumsum"
+        if rng.random() < 0.05:
+            return "cumsum %s" % " ".join([hx(0.0)] * n)      # all-zero cumulative vector: only the last index is left
         w = weights(rng, n)
         c, s = [], 0.0
         for x in w:
@@ -125,7 +127,10 @@ def det_ops(rng):
         return "cumsum %s" % " ".join(map(hx, c))
     if r < 0.80:
         n = max(n, 1)
-        return "multinom %d %s" % (rng.randint(0, 14), " ".join(map(hx, weights(rng, n))))
+        # incl. all-zero probabilities (no positive sum: a non-empty request must be refused) and, rarely, none at all
+        if rng.random() < 0.03:
+            return "multinom %d" % rng.randint(0, 3)
+        return "multinom %d %s" % (rng.randint(0, 14), " ".join(map(hx, weights(rng, n, allow_all_zero=rng.random() < 0.15))))
     if r < 0.86:
         n = max(n, 1)
         parts = [0] + sorted(rng.randint(0, 64) for _ in range(n - 1)) + [64]
@@ -150,7 +155,7 @@ def det_ops(rng):
         if rng.random() < 0.05:
             rows[0] += 1          # totals differ: must be refused
         return "rcont2 %s ; %s" % (" ".join(map(str, rows)), " ".join(map(str, cols)))
-    nr, nc = rng.randint(2, 4), rng.randint(2, 4)
+    nr, nc = rng.randint(2, 5), rng.randint(2, 5)
     cells = [rng.randint(0, 15) if rng.random() < 0.9 else 0 for _ in range(nr * nc)]
     return "ctest %d %d %d %s" % (rng.choice([0, 1, 5, 40]), nr, nc, " ".join(map(str, cells)))
 
@@ -186,6 +191,9 @@ def stat_cases(rng, seeds, tier):
     for a, b in ([] if big else [(20.0, 0.1), (0.1, 0.1), (1.0, 0.1)]):
         fams.append(("beta", [a, b]))
         fams.append(("dBeta", [a, b]))
+    # restricted distributions: randC against the own cdf conditioned on the restricted domain
+    fams += [("rGamma", [2.0, 1.0, 0.5, 3.0]), ("rGamma", [0.5, 2.0, 0.1, 1.0]), ("rExpo", [2.0, 0.2, 1.5]), ("rGauss", [1.0, 2.0, 0.0, 2.5]),
+             ("rGauss", [0.0, 1.0, -0.5, 4.0]), ("rBeta", [2.0, 3.0, 0.2, 0.7]), ("rUnif", [-1.0, 3.0, 0.0, 2.0])]
     for lo, hi in [(0.0, 1.0), (-3.0, 2.0), (2.0, 2.5)] + ([(0.1, 20.0), (-20.0, -0.1)] if big else []):
         fams.append(("dUnif", [lo, hi]))
     for i, (fam, ps) in enumerate(fams):
@@ -261,7 +269,8 @@ def generate(seed, tier):
     # 4. malformed / boundary stream
     bad = ["pick1 0", "pick1 1", "pick1c", "pickw 0 ;", "pickw 1 ;", "pickwc ;", "sample 0 1", "sample 1 1", "sample 1 0", "sample 0 0",
            "samplew 0 1 ;", "samplew 1 1 ;", "samplew 1 0 ;", "sample 0 5 1 2 3", "samplew 0 5 1 2 3 ; %s %s %s" % (hx(1), hx(1), hx(1)),
-           "cumsum", "cumsum %s" % hx(1.0), "cumsum %s %s" % (hx(0.0), hx(1.0)), "multinom 0 %s" % hx(1.0), "multinom 3 %s" % hx(2.0),
+           "samplew 0 0 ;", "sample 0 0 1 2", "samplew 1 0 1 2 ; %s %s" % (hx(1), hx(2)), "multinom 4 %s %s %s" % (hx(0), hx(0), hx(0)), "multinom 0 %s %s" % (hx(0), hx(0)), "multinom 2", "multinom 0",
+           "cumsum %s %s %s" % (hx(0), hx(0), hx(0)), "cumsum", "cumsum %s" % hx(1.0), "cumsum %s %s" % (hx(0.0), hx(1.0)), "multinom 0 %s" % hx(1.0), "multinom 3 %s" % hx(2.0),
            "rcont2 3 ; 1 2", "rcont2 1 2 ; 3", "rcont2 ; ", "rcont2 1 2 ; 2 2", "rcont2 0 0 ; 0 0", "rcont2 0 5 ; 5 0", "rcont2 0 0 0 ; 0 0 0 0",
            "ctest 0 2 2 0 0 1 1", "ctest 5 2 2 0 1 0 1", "ctest 5 1 2 3 4", "ctest 0 2 2 1 1 1 1", "ctest 3 2 2 1 1 1 1", "ctest 5 2 2 1 0 0 1", "ctest 40 2 2 0 1 1 0", "ctest 1 2 2 1 0 0 1",
            "pickw 0 1 2 3 ; %s %s %s" % (hx(0), hx(0), hx(0)), "samplew 0 3 1 2 3 ; %s %s %s" % (hx(0), hx(0), hx(0)),
